@@ -70,7 +70,8 @@ fn collect_fields_inner<'a>(
 ) {
     selection_set.items.iter().for_each(|item| match item {
         Selection::Field(f) => {
-            let existing = result_arr.entry(f.name.clone()).or_default();
+            let response_key = f.alias.as_ref().unwrap_or(&f.name);
+            let existing = result_arr.entry(response_key.clone()).or_default();
             existing.push(f.clone());
         }
         Selection::InlineFragment(f) => {
